@@ -140,3 +140,31 @@ func NewConn(client bool, m Mode, threshold int) (*websocket.Conn, *End, error) 
 	c, _, err := ServerConn(a, o, m.extHeader())
 	return c, b, err
 }
+
+// Pair connects a real library client and a real library server through the real handshake
+// (Dial's request is answered by Accept) over an in-memory pipe. tapC2S / tapS2C, if non-nil,
+// receive every byte the client / the server writes.
+func Pair(dopts *websocket.DialOptions, aopts *websocket.AcceptOptions, tapC2S, tapS2C func([]byte)) (client, server *websocket.Conn, respHdr http.Header, err error) {
+	a, b := Pipe()
+	a.Out.Tap = tapC2S
+	b.Out.Tap = tapS2C
+	var o websocket.DialOptions
+	if dopts != nil {
+		o = *dopts
+	}
+	var serr error
+	o.HTTPClient = &http.Client{Transport: rtFunc(func(r *http.Request) (*http.Response, error) {
+		w := &hijackRW{hdr: http.Header{}, conn: b}
+		server, serr = websocket.Accept(w, r, aopts)
+		if serr != nil {
+			return &http.Response{StatusCode: w.Status, Header: w.hdr, Body: io.NopCloser(strings.NewReader("")), Request: r}, nil
+		}
+		respHdr = w.hdr
+		return &http.Response{StatusCode: 101, Header: w.hdr, Body: a, Proto: "HTTP/1.1", ProtoMajor: 1, ProtoMinor: 1, Request: r}, nil
+	})}
+	client, _, err = websocket.Dial(context.Background(), "ws://example.com/", &o)
+	if err == nil && serr != nil {
+		err = serr
+	}
+	return
+}
